@@ -67,11 +67,15 @@ template <class S> void lattice(vf::Ctx& c, const char* tname, int p, int ni) {
   const bool dbl = std::is_same<S, double>::value;
   long double eps = std::numeric_limits<S>::epsilon();
   std::vector<int> ns = {p, p + 1, 2 * p, 50, 500, 31, 32, 64, 257};   // incl. sizes around multiples of the SIMD packet / typical block sizes
-  int n = ns[ni];
+  // ni == 9: EVERY data size from p to 500 (the statement quantifies over all of them) on a reduced configuration lattice
+  const bool allSizes = ni == 9;
+  std::vector<int> nlist; if (allSizes) for (int k = p; k <= 500; ++k) nlist.push_back(k); else nlist.push_back(ns[ni]);
   std::vector<long double> kappas = {1, 1e2L, 3e2L, 1e4L, 1e6L};
   std::vector<long double> mags = dbl ? std::vector<long double>{powl(2, -27), powl(2, -10), 1, powl(2, 10)} : std::vector<long double>{powl(2, -13), powl(2, -6), 1, powl(2, 6)};
-  for (long double kappa : kappas) for (long double mag : mags) for (int cons = 0; cons < 3; ++cons) for (int w = 0; w < 4; ++w) for (int prec = 0; prec < 4; ++prec) {
-    if (p == 1 && kappa != 1) continue;
+  if (allSizes) { kappas = {30}; mags = {1}; }
+  for (int n : nlist) for (long double kappa : kappas) for (long double mag : mags) for (int cons = 0; cons < 3; ++cons) for (int w = 0; w < 4; ++w) for (int prec = 0; prec < 4; ++prec) {
+    if (allSizes && (cons != 1 || w > 1 || (prec != 0 && prec != 2))) continue;
+    if (p == 1 && kappa != 1 && !allSizes) continue;
     Problem<S> P = make_problem<S>(n, p, kappa, mag, cons, w, prec, 0);
     // reference: (weighted) least squares by Householder QR in long double on the problem as stored in S
     LM Jl = P.J.template cast<long double>(); LV Yl = P.Y.template cast<long double>();
@@ -178,20 +182,62 @@ template <class S> void sequences(vf::Ctx& c, const char* tname, int depth, int 
   c.states(states.size());
 }
 
+
+// ---- S3: data-size profiles on one solver (a big problem followed by many small ones, shrinking, alternating ...) -------------------
+template <class S> void size_profiles(vf::Ctx& c, const char* tname) {
+  using Vec = typename Problem<S>::Vec; using Mat = typename Problem<S>::Mat;
+  long double eps = std::numeric_limits<S>::epsilon();
+  std::vector<std::vector<int>> profiles;
+  { std::vector<int> v = {400}; for (int i = 0; i < 15; ++i) v.push_back(40 + i % 10); profiles.push_back(v); }        // one big, then many below a quarter of it
+  { std::vector<int> v = {400}; for (int i = 0; i < 15; ++i) v.push_back(99 + (i % 2)); profiles.push_back(v); }       // just below / at a quarter
+  { std::vector<int> v = {8, 500}; for (int i = 0; i < 14; ++i) v.push_back(8); profiles.push_back(v); }
+  { std::vector<int> v; for (int n = 500; n >= 8; n = n * 2 / 3) v.push_back(n); for (int i = 0; i < 8; ++i) v.push_back(8); profiles.push_back(v); }   // shrinking
+  { std::vector<int> v; for (int i = 0; i < 16; ++i) v.push_back(i % 2 ? 40 : 400); profiles.push_back(v); }          // alternating
+  { std::vector<int> v; for (int i = 0; i < 16; ++i) v.push_back(8 + 33 * i); profiles.push_back(v); }                 // growing
+  for (int p : {2, 3, 6}) for (size_t ip = 0; ip < profiles.size(); ++ip) for (int prec = 0; prec < 2; ++prec) for (int pattern = 0; pattern < 4; ++pattern) {
+    LeastSquares<S> ls(p);
+    Vec A(p), b(p); for (int j = 0; j < p; ++j) { A(j) = (S)(j % 2 ? 0.5 : 3.0); b(j) = (S)(0.25 * (j + 1)); }
+    Mat Am = A.asDiagonal();
+    if (prec) ls.setPreconditionner(Am, b);   // configured once, before the first problem
+    for (size_t i = 0; i < profiles[ip].size(); ++i) {
+      int n = std::max(profiles[ip][i], p);
+      int solver = pattern == 2 ? (int)(i % 2) : pattern == 3 ? 0 : pattern;
+      Problem<S> P = make_problem<S>(n, p, 3, 1, 1, pattern == 3 ? 1 : 0, 0, (int)i + 1);
+      load(ls, P, true);
+      Vec x = solve(ls, P, solver);
+      LeastSquares<S> fresh(p); load(fresh, P, false); if (prec) fresh.setPreconditionner(Am, b);
+      Vec xf = solve(fresh, P, solver);
+      c.transitions(); c.eval(); if (i) c.nontrivial();
+      for (int j = 0; j < p; ++j) c.obs((double)x(j));
+      long double d = x.template cast<long double>().allFinite() ? (x - xf).template cast<long double>().norm() : HUGE_VALL;
+      long double tol = 256 * eps * 9 * (1 + xf.template cast<long double>().norm());
+      if (!(d <= tol)) {
+        c.violation("LeastSquares.dependsOnHistory", vf::JO().str("type", tname).str("explorer", "size profiles").i("estimate_size", p).vec("data_sizes", std::vector<int>(profiles[ip].begin(), profiles[ip].begin() + i + 1)).b("preconditioner_set_once", prec).str("solvers", pattern == 0 ? "Cholesky" : pattern == 1 ? "SVD" : pattern == 2 ? "alternating" : "weighted").done(), vf::JO().num("difference_vs_fresh", d).num("tol", tol).done());
+        break;
+      }
+    }
+    c.traces();
+  }
+}
+
 }  // namespace
 
 // cases: L: 2 types x 8 p x 9 n ; S: 2 types x 81 first ops
-uint64_t vf_ncases(const std::string& tier) { return 144 + 162 + 80; }
+uint64_t vf_ncases(const std::string& tier) { return 144 + 162 + 80 + 16 + 2; }
 
 void vf_run(uint64_t idx, const std::string& tier, vf::Ctx& c) {
   if (idx < 144) { int t = idx / 72, p = (idx % 72) / 9 + 1, ni = idx % 9; if (t == 0) lattice<double>(c, "double", p, ni); else lattice<float>(c, "float", p, ni); }
   else if (idx < 144 + 162) { int k = (int)idx - 144; int depth = tier == "thorough" ? 4 : 3; if (k < 81) sequences<double>(c, "double", depth, k); else sequences<float>(c, "float", depth, k - 81); }
-  else { int k = (int)idx - 306; if (k < 40) sequences<double>(c, "double", 0, k, true); else sequences<float>(c, "float", 0, k - 40, true); }
+  else if (idx < 386) { int k = (int)idx - 306; if (k < 40) sequences<double>(c, "double", 0, k, true); else sequences<float>(c, "float", 0, k - 40, true); }
+  else if (idx < 402) { int k = (int)idx - 386; if (k < 8) lattice<double>(c, "double", k + 1, 9); else lattice<float>(c, "float", k - 8 + 1, 9); }
+  else if (idx == 402) size_profiles<double>(c, "double"); else size_profiles<float>(c, "float");
 }
 
 std::string vf_describe(const std::string& tier) {
   vf::JO o;
   o.str("L", "estimate size 1..8 x data size {p,p+1,2p,50,500,31,32,64,257} x kappa {1,1e2,3e2,1e4,1e6} x magnitude {2^-27,2^-10,1,2^10} (float {2^-13,2^-6,1,2^6}) x Y {consistent, inconsistent, strongly inconsistent} x weights {none, alternating 1/4..4, one zero, one huge} x preconditioner {none, diagonal, diagonal+offset, identity+offset}; cases with 8 p kappa^2 eps > 0.5 are skipped (no digits in the normal equations)");
+  o.str("S_size_profiles", "one solver through 16-problem histories of data sizes: one big then many small (below / around a quarter), 8-500-8.., shrinking by 2/3, alternating 400/40, growing; estimate sizes {2,3,6}; preconditioner set once or never; Cholesky / SVD / alternating / weighted; each answer vs a fresh solver");
+  o.str("L_all_sizes", "every data size from p to 500 for p = 1..8, float and double, kappa 30, inconsistent Y, weights {none, alternating}, preconditioner {none, diagonal+offset}, all three solver paths");
   o.str("L_oracle", "Householder-QR solution in long double; |x - x_ref| <= 8 p eps kappa^2 (|x|+|Y|/smax); normal-equation residual; Cholesky vs SVD path");
   o.i("S_depth", tier == "thorough" ? 4 : 3).str("S_ops", "problem(p in 1..3 (setEstimateSize when it changes), n in {p,p+2,8}, solver in {Cholesky, SVD, weighted}, preconditioner {kept, setPreconditionner(A,b), setPreconditionner(A)}) = 81 operations, plus (after the first) 'assign the solver to another long-lived solver and continue with that one' and 'continue with a copy-constructed solver'; the model tracks the configured preconditioner; buffers NaN-poisoned before each problem; result vs fresh solver within 256*9 eps");
   o.str("S_long", "a fixed script of 40 problems cycling through the 81 kinds on one solver, and every variant with ONE position replaced by any of the 83 operations (deviation bound 1); same oracle after every step");
